@@ -490,21 +490,52 @@ _REAL_OPEN = builtins.open
 class _WFile(object):
     """Proxy around a file opened for writing: every write() is a fault point."""
 
+    BUFFER = 8192      # io.DEFAULT_BUFFER_SIZE: what a buffered stream holds before it has to go to the device
+
     def __init__(self, f, path):
         self._f = f
         self._p = path
+        self._late = None      # bytes lost so far in the buffer of a LATE fault (spec/BufWriter.tla)
+
+    def _surface(self, where):
+        """The device error of bytes that an earlier write() left in the buffer is raised by the call that empties it."""
+        if self._late is not None:
+            self._late = None
+            AUDIT.dead.add(os.path.abspath(self._p))
+            raise FaultInjected(28, "No space left on device (injected at write, raised by %s)" % where, self._p)
 
     def write(self, data):
         AUDIT.points += 1
         AUDIT.point_log.append(("write", self._p))
+        if self._late is not None:
+            # the buffer already holds bytes the device will refuse: they surface when it overflows
+            AUDIT.events.append({"ev": "WP", "what": "write", "path": os.path.abspath(self._p), "faulted": True})
+            self._late += len(data)
+            if self._late > self.BUFFER:
+                self._surface("a later write")
+            return len(data)
         hit = (AUDIT.fault_at is not None and AUDIT.points == AUDIT.fault_at) or \
             os.path.abspath(self._p) in AUDIT.dead
         AUDIT.events.append({"ev": "WP", "what": "write", "path": os.path.abspath(self._p), "faulted": hit})
         if hit:
-            AUDIT.dead.add(os.path.abspath(self._p))
             AUDIT.faulted = True
+            if AUDIT.late and len(data) <= self.BUFFER:
+                # LATE fault: write() only fills the buffer and returns; the bytes never reach the device
+                self._late = len(data)
+                return len(data)
+            AUDIT.dead.add(os.path.abspath(self._p))
             raise FaultInjected(28, "No space left on device (injected at write)", self._p)
         return self._f.write(data)
+
+    def flush(self):
+        self._surface("flush")
+        return self._f.flush()
+
+    def close(self):
+        try:
+            self._surface("close")
+        finally:
+            self._f.close()
 
     def __getattr__(self, name):
         return getattr(self._f, name)
@@ -514,7 +545,12 @@ class _WFile(object):
         return self
 
     def __exit__(self, *a):
-        return self._f.__exit__(*a)
+        try:
+            if a[0] is None:
+                self._surface("close")
+        finally:
+            r = self._f.__exit__(*a)
+        return r
 
     def __iter__(self):
         return iter(self._f)
@@ -545,6 +581,7 @@ def _open_wrapper(file, mode="r", *a, **kw):
 
 AUDIT.count_writes = False
 AUDIT.dead = set()
+AUDIT.late = False
 
 
 class fs_audit(object):
@@ -553,9 +590,10 @@ class fs_audit(object):
     fault at write point number `fault_at`.
     """
 
-    def __init__(self, fault_at=None, count=False):
+    def __init__(self, fault_at=None, count=False, late=False):
         self.fault_at = fault_at
         self.count = count
+        self.late = late      # the fault is a LATE one: raised by the call that empties the buffer (spec/BufWriter.tla)
 
     def __enter__(self):
         if not AUDIT.installed:
@@ -567,6 +605,7 @@ class fs_audit(object):
         AUDIT.faulted = False
         AUDIT.dead = set()
         AUDIT.fault_at = self.fault_at
+        AUDIT.late = self.late
         AUDIT.count_writes = self.count
         if self.fault_at is not None or self.count:
             builtins.open = _open_wrapper
